@@ -54,6 +54,12 @@ def run(pid, tier='quick', seed=None, replay=None):
     t0 = time.time()
     prop = PROPS[pid]
     seed = int(os.environ.get('VERIF_SEED', '1')) if seed is None else seed
+    if replay:
+        pl = json.load(open(replay))
+        if 'lines' not in pl:
+            # a broken obligation / implementation-side scenario: replaying means re-running the check with the recorded seed
+            seed = pl.get('seed', seed)
+            replay = None
     known = core.load_known()
     violations = []       # (kind, replay payload)
     notes = []
